@@ -63,3 +63,8 @@ Theorem C11_reachable_roundtrips_needs_three_bit_flags :
   exists p0, init [] [] None = IOk p0 /\ rt (fst (step p0 (OSetMod (Some 8)))) = false.
 Proof. exact reachable_roundtrips_needs_three_bit_flags. Qed.
 Print Assumptions C11_reachable_roundtrips_needs_three_bit_flags.
+
+(* AddInputs never moves the locktime of a packet that carries partial signatures (any packet, any arguments) *)
+Theorem C11_signed_locktime_fixed : forall p l, signed p = true -> locktime (fst (step p (OAddInputs l))) = locktime p.
+Proof. exact signed_locktime_fixed. Qed.
+Print Assumptions C11_signed_locktime_fixed.
